@@ -192,6 +192,42 @@ def skelGo : Bool → List Tok → List Tok
 
 def skel (ts : List Tok) : List Tok := skelGo false ts
 
+/-! ## token separation (CSS Syntax 3 §9 "serialization")
+
+Whether two tokens written back to back re-lex as the same two tokens depends only on their *kinds*: the token class
+and, for a delimiter, its character. -/
+
+/-- kind of a token -/
+abbrev Kind := TT × List Char
+
+def kindOf (t : Tok) : Kind := (t.tt, if t.tt == .delim then t.data else [])
+
+def identLikeTT (tt : TT) : Bool := tt == .ident || tt == .atKeyword || tt == .hash || tt == .dimension
+def numericTT (tt : TT) : Bool := tt == .number || tt == .percentage || tt == .dimension
+
+/-- the pairs of the table in CSS Syntax 3 §9 that must be kept apart (by white space or a comment) -/
+def needsSep (a b : Kind) : Bool :=
+  let startsName := b.1 == .ident || b.1 == .function || b.1 == .url || b.1 == .badUrl
+  (identLikeTT a.1 && (startsName || numericTT b.1 || b.1 == .cdc || b == (.delim, ['-']) || (a.1 == .ident && b.1 == .leftParen))) ||
+  (a.1 == .number && (startsName || numericTT b.1 || b == (.delim, ['%']))) ||
+  ((a == (.delim, ['#']) || a == (.delim, ['-'])) && (startsName || numericTT b.1 || b == (.delim, ['-']))) ||
+  (a == (.delim, ['@']) && (startsName || b == (.delim, ['-']))) ||
+  ((a == (.delim, ['.']) || a == (.delim, ['+'])) && numericTT b.1) ||
+  (a == (.delim, ['/']) && b == (.delim, ['*'])) ||
+  (a == (.delim, ['|']) && (b == (.delim, ['|']) || b == (.delim, ['=']) || b.1 == .column)) ||
+  ((a == (.delim, ['$']) || a == (.delim, ['*']) || a == (.delim, ['^']) || a == (.delim, ['~'])) && b == (.delim, ['=']))
+
+/-- no adjacent pair needs a separator -/
+def sepFree : List Kind → Bool
+  | a :: b :: r => !needsSep a b && sepFree (b :: r)
+  | _ => true
+
+/-- the kinds of the tokens outside `[…]` (the brackets stay, their content is dropped) -/
+def kindsOutside : Bool → List Tok → List Kind
+  | _, [] => []
+  | true, t :: r => if t.tt == .rightBracket then kindOf t :: kindsOutside false r else kindsOutside true r
+  | false, t :: r => kindOf t :: kindsOutside (t.tt == .leftBracket) r
+
 structure Spc where
   a : Nat
   b : Nat
